@@ -10,6 +10,11 @@
 (*   [c |-> 5, st |-> "done" | "na", k, y]                 nth_back(k)     *)
 (*   [c |-> 6, st, k, y]                                   last()   (consumes everything) *)
 (*   [c |-> 7, st, k, len |-> n]                           count()  (consumes everything) *)
+(*   [c |-> 8 | 9 | 10, st, k, y]      fold / rfold / for_each, observed   *)
+(*        element by element: one record per element the closure was given *)
+(*        and an end record with y = <<>>.  Internal iteration IS repeated *)
+(*        next (8, 10) resp. next_back (9) - NormCalls maps it to that, so *)
+(*        an override of fold / rfold / for_each must agree with stepping. *)
 (*   st = "started": the call did not return (it panicked)                 *)
 (* S is the set of elements the underlying queue held.  The number of      *)
 (* elements still to be yielded is accounted forward: it starts at the     *)
@@ -17,6 +22,11 @@
 (* consumes what the std contract says it consumes.                        *)
 (***************************************************************************)
 EXTENDS Abstract
+
+\* internal iteration as the equivalent stepping
+NormCalls(res) == [i \in 1..Len(res) |->
+                     IF res[i].c \in {8, 10} THEN [res[i] EXCEPT !.c = 0]
+                     ELSE IF res[i].c = 9 THEN [res[i] EXCEPT !.c = 1] ELSE res[i]]
 
 Yielding(x) == x.c \in {0, 1, 4, 5, 6} /\ x.st = "done"
 Yielded(x)  == Yielding(x) /\ x.y # <<>>
@@ -30,6 +40,22 @@ ExpectedTotal(adapt, k, n) ==
     [] adapt \in {"skip", "skip_rev"} -> IF n > k THEN n - k ELSE 0
     [] adapt = "step_by" -> LET s == IF k < 1 THEN 1 ELSE k IN (n + s - 1) \div s
     [] OTHER -> n
+
+\* what a plain forward traversal of the adaptor composition yields, given what a plain forward traversal of
+\* the adapted iterator yields
+RevSeq(s) == [i \in 1..Len(s) |-> s[Len(s) - i + 1]]
+AdaptRef(adapt, k, ref) ==
+  LET n == Len(ref)
+      m == Min2(k, n)
+      s == IF k < 1 THEN 1 ELSE k IN
+  CASE adapt = "rev"      -> RevSeq(ref)
+    [] adapt = "take"     -> SubSeq(ref, 1, m)
+    [] adapt = "skip"     -> SubSeq(ref, m + 1, n)
+    [] adapt = "step_by"  -> [i \in 1..((n + s - 1) \div s) |-> ref[(i - 1) * s + 1]]
+    [] adapt = "rev_take" -> SubSeq(RevSeq(ref), 1, m)
+    [] adapt = "take_rev" -> RevSeq(SubSeq(ref, 1, m))
+    [] adapt = "skip_rev" -> RevSeq(SubSeq(ref, m + 1, n))
+    [] OTHER              -> ref
 
 \* elements a completed call takes out of the iterator when `rem` were left
 Consumes(x, rem) ==
